@@ -12,6 +12,7 @@ import (
 
 	enc "github.com/named-data/ndnd/std/encoding"
 	"github.com/named-data/ndnd/std/engine/basic"
+	"github.com/named-data/ndnd/std/engine/dummy"
 	"github.com/named-data/ndnd/std/ndn"
 	spec "github.com/named-data/ndnd/std/ndn/spec_2022"
 	sec "github.com/named-data/ndnd/std/security"
@@ -55,7 +56,7 @@ type c20Run struct {
 	id       string
 	eng      *basic.Engine
 	face     *simeng.Face
-	tm       *simeng.Timer
+	tm       c20Clock
 	pend     []*c20Pending
 	hist     []*c20Event
 	fired    []int // ids whose callback ran during the current event
@@ -67,6 +68,16 @@ type c20Run struct {
 	stop     bool
 	r        *rand.Rand // separate stream for delivery framing choices
 }
+
+// c20Clock is a virtual clock the history can advance: the harness timer or the repository's.
+type c20Clock interface {
+	ndn.Timer
+	Advance(d time.Duration) int
+}
+
+type repoClock struct{ *dummy.Timer }
+
+func (rc repoClock) Advance(d time.Duration) int { rc.MoveForward(d); return 0 }
 
 type c20In struct {
 	deadline time.Time
@@ -159,7 +170,12 @@ func (cr *c20Run) checkOnce() bool {
 func c20History(c *h.Ctx, id string, r *rand.Rand) {
 	c.Eval(1)
 	cr := &c20Run{c: c, id: id, handlers: map[string]enc.Name{}, dataWire: map[string][]byte{}, r: c.Rng(id + "/framing")}
-	cr.tm = simeng.NewTimer()
+	if cr.r.Intn(2) == 0 {
+		cr.tm = simeng.NewTimer()
+	} else {
+		cr.tm = repoClock{dummy.NewTimer()} // the repository's own virtual timer (an anchor of this property)
+		c.Count("histories_on_repository_timer", 1)
+	}
 	cr.face = simeng.NewFace(true)
 	cr.eng = basic.NewEngine(cr.face, cr.tm, sec.NewSha256IntSigner(cr.tm), func(enc.Name, enc.Wire, ndn.Signature) bool { return true })
 	if err := cr.eng.Start(); err != nil {
